@@ -108,3 +108,14 @@ claim('C18',
       'matplotlib rendering itself (Bezier approximation, transforms, contains_point) is outside; replays use real matplotlib.',
       'symbolic execution of the real Python with recording stubs + SMT (z3 NRA)',
       'DESIGN.md section 5 C18')
+claim('C14',
+      'Fault-schedule check of the three writers through Region.write / Regions.write with the destination-exists bit and '
+      'the overwrite flag symbolic and a failing member injected at each position: on every path the recorded filesystem '
+      'events satisfy "no open/writeto/remove/rename unless serialisation succeeded and (not exists or overwrite)", '
+      'OSError when refused, written text == serialised text, FITS writeto receives the caller\'s flag.  Format '
+      'identification for every path string (symbolic, <= 12 8-bit characters): exactly the documented suffixes, case '
+      'insensitive, mutually exclusive, write-accepted => read-accepted, registry picks the accepting format.',
+      'Filesystem and astropy FITS I/O are event-recording stubs (replays run in a real temporary directory); content '
+      'sniffing / gzip / symlink semantics are outside.',
+      'symbolic execution of the real Python over a symbolic fault schedule and symbolic path strings + SMT (z3)',
+      'DESIGN.md section 5 C14')
